@@ -59,15 +59,18 @@ func (g *gen) Generate(typs []types.Type) error {
 	if !ok {
 		return fmt.Errorf("%s, the first argument, %s, is not of type map", g.GetFuncName(typ), typ)
 	}
-	return g.genFuncFor(mapType)
+	return g.genFuncFor(typ, mapType)
 }
 
-func (g *gen) genFuncFor(typ *types.Map) error {
+// genFuncFor generates the function for typ, which is registered under typ itself: marking the
+// underlying map type as generated instead would, for a named map type, mark whichever
+// registered function happens to accept that unnamed type and leave this one pending forever.
+func (g *gen) genFuncFor(typ types.Type, mapType *types.Map) error {
 	p := g.printer
 	g.Generating(typ)
 	name := g.GetFuncName(typ)
 	typeStr := g.TypeString(typ)
-	keyType := typ.Key()
+	keyType := mapType.Key()
 	keyTypeStr := g.TypeString(keyType)
 	p.P("")
 	p.P("// %s returns the keys of the input map as a slice.", name)
